@@ -299,7 +299,7 @@ theorem checkData_spec {t : Typ} (ht : TypWF t) (d : GoMap GoVal)
 abbrev Hist := List (GoString × GoVal)
 
 /-- Every call of the history is well-typed for the type. -/
-def HistOk (t : Typ) (h : Hist) : Prop := ∀ p ∈ h, Spec.setOk t p.1 p.2 = true
+def SetHistOk (t : Typ) (h : Hist) : Prop := ∀ p ∈ h, Spec.setOk t p.1 p.2 = true
 
 /-- The ID a `Set("id", v)` stores. -/
 def idOf (v : GoVal) : GoString := match v with | .val .string (.s id) => id | _ => []
@@ -480,7 +480,7 @@ theorem SoftInv.step {t : Typ} (ht : TypWF t) (hn : Spec.namesOk t = true) {h : 
         · cases hok
 
 /-- The whole history, from any state satisfying the invariant. -/
-theorem SoftInv.run {t : Typ} (ht : TypWF t) (hn : Spec.namesOk t = true) (h : Hist) (hok : HistOk t h) :
+theorem SoftInv.run {t : Typ} (ht : TypWF t) (hn : Spec.namesOk t = true) (h : Hist) (hok : SetHistOk t h) :
     ∀ (pre : Hist) (s : Soft), SoftInv t pre s →
       SoftInv t (pre ++ h) (h.foldl (fun s p => s.set p.1 p.2) s) := by
   induction h with
